@@ -231,11 +231,14 @@ class ParseMCNPCell:
             elt = kw_list.pop()
             if elt.startswith('imp'):
                 importance = float(kw_list.pop())
-                if 'importance' in keywords:
-                    keywords['importance'] = max(importance,
-                                                 keywords['importance'])
-                else:
-                    keywords['importance'] = importance
+                # the importance of the cell is the largest one over the
+                # particle types, but a repeated keyword for the same particle
+                # type (LIKE n BUT IMP:N=...) replaces the earlier value
+                by_particle = keywords['imp_by_particle'] or {}
+                for particle in elt.partition(':')[2].split(','):
+                    by_particle[particle] = importance
+                keywords['imp_by_particle'] = by_particle
+                keywords['importance'] = max(by_particle.values())
             elif 'fill' in elt:
                 f_bounds, f_univs, f_params = self.parse_fill_kw(elt, kw_list)
                 keywords['f_bounds'] = f_bounds
